@@ -72,6 +72,8 @@ type shared struct {
 	Xpk         [3][]byte
 	Xsig        [3][]byte
 	xmsg        []byte
+	ManyPk      [][]byte
+	ManySig     [][]byte
 	Seeds       [][48]uint8
 	Mnemonics   []string
 	ExtMnemonic []string
@@ -125,6 +127,15 @@ func buildShared(r *rand.Rand) *shared {
 		p := x.GetPK()
 		s.Xpk[hf] = p[:]
 	}
+	for i := 0; i < 24; i++ { // more distinct Dilithium keys than any plausible cache has slots
+		var sd [48]uint8
+		r.Read(sd[:])
+		k, _ := dilithium.NewDilithiumFromSeed(sd)
+		pk := k.GetPK()
+		sg, _ := k.Sign(msg)
+		s.ManyPk = append(s.ManyPk, append([]byte{}, pk[:]...))
+		s.ManySig = append(s.ManySig, append([]byte{}, sg[:]...))
+	}
 	for i := 0; i < 8; i++ {
 		var sd [48]uint8
 		r.Read(sd[:])
@@ -162,6 +173,24 @@ func statelessOps(s *shared, r *rand.Rand) []op {
 			d := xmss.NewQRLDescriptorFromExtendedPK(&s.xpk[hf])
 			b := d.GetBytes()
 			return dg(b[:], []byte{byte(d.GetHeight()), byte(d.GetHashFunction())})
+		})
+	}
+	for i := range s.ManyPk {
+		i := i
+		add("dverify-key-"+strconv.Itoa(i), func() string {
+			var pk [dilithium.CryptoPublicKeyBytes]uint8
+			var sg [dilithium.CryptoBytes]uint8
+			copy(pk[:], s.ManyPk[i])
+			copy(sg[:], s.ManySig[i])
+			return strconv.FormatBool(dilithium.Verify(s.dmsg, sg, &pk))
+		})
+	}
+	// other Winternitz parameters through the custom entry point, also values that are not powers of two
+	// (NewWOTSParams accepts them): whatever they answer, the calls around them must not be affected
+	for _, w := range []uint32{4, 256, 5, 17, 31, 257} {
+		w := w
+		add("xverify-w"+strconv.Itoa(int(w)), func() string {
+			return strconv.FormatBool(xmss.VerifyWithCustomWOTSParamW(s.xmsg, s.Xsig[1], s.xpk[1], w))
 		})
 	}
 	add("dverify-ok", func() string { return strconv.FormatBool(dilithium.Verify(s.dmsg, s.dsig, &s.dpk)) })
@@ -257,6 +286,7 @@ func main() {
 	rounds := flag.Int("rounds", 2, "concurrent rounds")
 	phase := flag.String("phase", "both", "seq (oracle, writes -material) | conc (fresh process, reads -material) | both")
 	material := flag.String("material", "", "file with the shared byte material")
+	order := flag.String("order", "forward", "seq phase: order in which the calls are run alone (forward | reverse | shuffle)")
 	flag.Parse()
 	t0 := time.Now()
 	r := rand.New(rand.NewSource(*seed*49979687 + 15))
@@ -286,9 +316,20 @@ func main() {
 		ops = sel
 	}
 
-	// sequential oracle: every stateless call alone, twice
+	// sequential oracle: every stateless call alone, twice; the order is a parameter because "what it
+	// returns when run alone" must not depend on which other calls ran before it in the process
+	seqOps := append([]op{}, ops...)
+	switch *order {
+	case "reverse":
+		for i, j := 0, len(seqOps)-1; i < j; i, j = i+1, j-1 {
+			seqOps[i], seqOps[j] = seqOps[j], seqOps[i]
+		}
+	case "shuffle":
+		rs := rand.New(rand.NewSource(*seed + 977))
+		rs.Shuffle(len(seqOps), func(i, j int) { seqOps[i], seqOps[j] = seqOps[j], seqOps[i] })
+	}
 	for rep := 0; rep < 2 && *phase != "conc"; rep++ {
-		for _, o := range ops {
+		for _, o := range seqOps {
 			tr.Emit(event{Ev: "seq", Op: o.id, Res: o.run(), SigIdx: -1})
 		}
 	}
